@@ -8,7 +8,7 @@ MANIFEST = {
              "handler stays closed; every live request has an armed timer at most `timeout` ahead; a request that sees no frame while `timeout` "
              "elapses fails with the timeout error whatever else happens on the connection; before its deadline a tick changes nothing, and while "
              "pages keep arriving less than `timeout` apart the request never times out. Tie: timing histories on the real handler (timeout "
-             "300 ms; observations only <= 0.3 or >= 3 timeouts after arming) and close-in-every-position exhaustive histories compared with the "
+             "500 ms; observations only <= 0.3 or >= 3 timeouts after arming) and close-in-every-position exhaustive histories compared with the "
              "model. NOT proved, exercised by the harness: goroutines end, blocked receivers return, Close returns, on scripted socket "
              "sessions (client/server/network-side close at each step boundary)."),
     "technique": "Rocq proof (invariants over histories, abstract clock) + model/code correspondence + scripted socket sessions with goroutine accounting",
@@ -22,7 +22,7 @@ MANIFEST = {
 def check(run):
     broken, findings, results = il.standard(run, "C16", "c16", extra_subs=("sock",))
     run.coverage["rule"] = (
-        "timing: histories with clock ticks on a real handler with timeout 300 ms (tick unit 30 ms); between two long ticks (30 units) the "
+        "timing: histories with clock ticks on a real handler with timeout 500 ms (tick unit 50 ms); between two long ticks (30 units) the "
         "short ticks add up to <= 3 units so every observation is made <= 0.3 or >= 3 timeouts after a timer was armed; exh-N2-P1-d3(+conn): "
         "every history of depth 3 (Close in every position); rand-N2/N3. Socket sessions (sock): scripted client/server sessions on localhost, "
         "close injected from the client, the server or the peer socket at each step boundary, goroutine count compared with the baseline "
